@@ -299,6 +299,17 @@ func sharedInputCases(lists [][]vsItem, toLabels func([]vsItem) []Label, emit fu
 		if len(in) == 0 {
 			continue
 		}
+		// entries of one type (a named and a type-only one) may legitimately be fed by the
+		// same supplied value; the expectation below needs a forced binding
+		seenT := map[int]bool{}
+		amb := false
+		for _, it := range in {
+			amb = amb || seenT[it.T]
+			seenT[it.T] = true
+		}
+		if amb {
+			continue
+		}
 		in := in
 		for _, asConv := range []bool{false, true} {
 			asConv := asConv
